@@ -1,17 +1,29 @@
 #!/usr/bin/env python3
 """tools/mutant.py <patch.diff> <Cxx> [<Cyy> ...] [--tier quick]
 Apply a seeded change to /repo, run the named checks, undo the change (always)."""
-import subprocess, sys, os
+import subprocess, sys, os, signal
 ROOT = os.path.dirname(os.path.dirname(os.path.abspath(__file__)))
+MARK = os.path.join(ROOT, "seeded", ".applied")
+def _term(signum, frame):
+    # a terminated run must still undo the seeded change (the finally block below does it)
+    raise KeyboardInterrupt("signal %d" % signum)
 def main():
+    for sg in (signal.SIGTERM, signal.SIGHUP):
+        signal.signal(sg, _term)
+    if os.path.exists(MARK):
+        print("refusing: %s exists - an earlier run was killed while %s was applied; "
+              "inspect `git -C /repo status`, undo with `git -C /repo checkout -- .`, then delete the marker"
+              % (MARK, open(MARK).read().strip())); return 2
     patch = os.path.abspath(sys.argv[1]); props = [a for a in sys.argv[2:] if not a.startswith("--")]
     tier = "quick"
     if "--tier" in sys.argv: tier = sys.argv[sys.argv.index("--tier") + 1]; props = [p for p in props if p != tier]
     st = subprocess.run(["git", "-C", "/repo", "status", "--porcelain"], capture_output=True, text=True).stdout
     if st.strip():
         print("refusing: /repo has local changes:\n" + st); return 2
+    open(MARK, "w").write(patch + "\n")
     r = subprocess.run(["git", "-C", "/repo", "apply", patch], capture_output=True, text=True)
     if r.returncode != 0:
+        os.remove(MARK)
         print("patch does not apply:", r.stderr); return 2
     res = {}
     # evidence written while a seeded change is applied is not evidence about /repo: keep the real files
@@ -29,6 +41,7 @@ def main():
     finally:
         subprocess.run(["git", "-C", "/repo", "checkout", "--", "."], check=True)
         subprocess.run(["git", "-C", "/repo", "clean", "-fdq", "crates"], check=False)
+        if os.path.exists(MARK): os.remove(MARK)
         for ev, txt in saved.items():
             if txt is None:
                 if os.path.exists(ev): os.remove(ev)
